@@ -50,9 +50,28 @@ func vhSetClocks(d *vhDag, localHead int) (E, C uint64) {
 	return
 }
 
+// vhDeepShapes: produced histories beyond the exhaustive bound: an already-merged side,
+// branches of unequal length, a merge of merges.
+var vhDeepShapes = [][][]int{
+	{{}, {0}, {0}, {1, 2}, {1}},            // merge M(A,B) on one side, C on top of A on the other
+	{{}, {0}, {0}, {2}, {3}, {1, 4}},       // branch lengths 1 vs 3, already merged
+	{{}, {0}, {0}, {1, 2}, {2, 1}, {3}},    // both sides merged the same heads, one moved on
+	{{}, {0}, {1}, {0}, {2, 3}, {3}, {4, 5}}, // merge of a merge
+}
+
+// VH_C02_merge_deep: the same merge step on the deeper shapes of vhDeepShapes.
+func VH_C02_merge_deep() {
+	vhFixedShape = vhDeepShapes[rt.Choose(rt.Param("DEEP", len(vhDeepShapes)))]
+	defer func() { vhFixedShape = nil }()
+	vhMergeStep(len(vhFixedShape))
+}
+
 // VH_C02_merge: one real merge step from an arbitrary well-formed state.
 func VH_C02_merge() {
-	n := 1 + rt.Choose(rt.Param("N", 4))
+	vhMergeStep(1 + rt.Choose(rt.Param("N", 4)))
+}
+
+func vhMergeStep(n int) {
 	d := vhGenDag(n, false, 2)
 	R := rt.Choose(n)
 	L := rt.Choose(n+1) - 1 // -1: entity absent locally
